@@ -15,7 +15,11 @@ import (
 )
 
 func readRules(input io.Reader) ([]rule, error) {
-	rules := defaultExclusions
+	// Work on a copy of the default rules: marking rules as being followed by
+	// a negation below must not modify the package-level defaults, which are
+	// shared with DefaultRuleset and with every other (possibly concurrent)
+	// parse.
+	rules := append([]rule(nil), defaultExclusions...)
 	scanner := bufio.NewScanner(input)
 	scanner.Split(bufio.ScanLines)
 	currentRuleIndex := len(defaultExclusions) - 1
